@@ -960,6 +960,22 @@ func equalsKindsRule(c *Ctx, r *R) {
 			mirrors++
 		}
 	}
+	// identity for every comparable reference kind
+	for _, k := range []string{"TypeStruct", "TypeFunc", "TypeObject"} {
+		found := false
+		for _, p := range ps {
+			cs := condStrings(p)
+			if len(p.Ret) == 1 && strings.Contains(p.Ret[0].String(), "(v.value == b.value)") {
+				// the kind appears un-negated in the path condition
+				for _, pat := range []string{"(v.t == " + k + ")", "(Type.base(v.t) == " + k + ")"} {
+					if i := strings.Index(cs, pat); i >= 0 && !strings.Contains(cs, "!"+pat) && !strings.Contains(cs, "!anyof("+pat) {
+						found = true
+					}
+				}
+			}
+		}
+		r.check(found, "Equals identity "+k, c.Pos(fd), "compared by identity", "Value.Equals has no identity comparison for "+k+" values: a value of that kind is not equal to itself — e.g. `err == ErrNotFound` and `switch err { case ErrNotFound: }` with sentinel errors made by errors.New never match")
+	}
 	r.check(swapped || (nilCases > 0 && mirrors >= nilCases), "Equals nil-left", c.Pos(fd), "nil == x is decided like x == nil", "Value.Equals handles `x == nil` for slices, maps and references but not `nil == x`: with nil on the left a nil slice/map/pointer compares unequal to nil")
 }
 
